@@ -42,6 +42,10 @@ def run_table(tier, seed):
                 out.append({"t": "run", "spec": spec, "cfg": {"penalty": pen, "control": ctl, "iteration_limit": 80, "params": {"rho": 1e-3}}, "sc": None})
             for vi in range(len(G.PARAM_VARIANTS)):
                 out.append({"t": "run", "spec": spec, "cfg": {"penalty": pen, "iteration_limit": 80, "params": {"rho": 1e-3}, "pv": vi}, "sc": None})
+    # long runs (thousands of accepted steps): every policy, fixed small steps
+    for pen in G.R.PENALTIES:
+        out.append({"t": "run", "spec": specs[0], "cfg": {"penalty": pen, "control": "Fixed", "iteration_limit": 4000 if tier == "quick" else 12000,
+                                                          "params": {"rho": 1e-3, "lamb_init": 300.0}}, "sc": None})
     for spec in G.exact_feasibility_specs():
         for pen in G.R.PENALTIES:
             for rho0 in (1e-8, 1e-3):
